@@ -11,26 +11,20 @@ Every maximal TLC behaviour is replayed through the REAL wrapper and a literal P
 real wrappers under a random driver, and the same chains executed by a real RunEngine on protocol-only fake devices
 (with device ledgers) are validated by TLC (PairedTrace).
 """
-import copy
-import json
-import random
-import re
 import sys
 
 from harness import wrapproto as wp
-from harness.core import MachineryError
-from harness.tlc import run_tlc, write_cfg, SPEC
-from harness.tracecheck import validate_traces
 
-SD = SPEC / "wrappers"
 DESIGN_REF = "DESIGN.md section 7 (C23), Appendix E; notes/C23.md"
+LEVEL_TEXT = ("bounded-exhaustive TLC on the reference semantics of the seven paired-action wrappers (message-trace monitors as "
+              "invariants) + conformance: every TLC behaviour replayed through the real wrappers, random wrapper chains under a "
+              "scripted driver and on a real RunEngine (device ledgers) validated by TLC; two open findings on lazily_stage_wrapper")
 TECHNIQUE = ("TLA+ reference semantics of the paired-action wrappers with message-trace monitors, exhaustive TLC; replay of "
              "every TLC behaviour through the real wrappers and a literal reference; batch trace validation of random chains "
              "under a scripted driver and under a real RunEngine with device ledgers")
 C23_INVS = ["C23_RunClosedOnce", "C23_RunOutcome", "C23_UnstageReverse", "C23_StageOncePerTree", "C23_SubsRemoved",
             "C23_SuspendersRemoved", "C23_RemoveOnlyAtEnd", "C23_UndoneBeforeClose", "C23_NoCleanupOnClose"]
 KINDS = set(wp.PAIRED_KINDS)
-HIST_RE = re.compile(r'<<"HIST", "((?:[^"\\]|\\.)*)">>')
 KF_SIG = {1: "C23:lazily_stage_wrapper:shared-root-staged-again:stage-reports-root-only",
           2: "C23:lazily_stage_wrapper:status-returning-stage:TypeError-nothing-unstaged"}
 KF_WHAT = {1: "lazily_stage_wrapper stages (and later unstages) the root again for a message on a child device whose root it "
@@ -39,24 +33,12 @@ KF_WHAT = {1: "lazily_stage_wrapper stages (and later unstages) the root again f
               "the plan and the staged root is never unstaged by the wrapper"}
 
 
-def cfg_key(c):
-    return f"{c['kind']}:{','.join(map(str, c['devs']))}:{c['style']}:{c.get('pk', '')}:{''.join(map(str, c['forest']))}"
-
-
-def nontrivial(h):
-    return any((e["g"] == "drv" and e["op"] != "send") or (e["g"] == "p" and e["r"] == "raise") for e in h)
-
-
-def tlc_histories(res):
-    return [json.loads(json.loads('"' + m.group(1) + '"')) for m in HIST_RE.finditer(res.stdout)]
-
-
 def run(ctx):
     old_hook = sys.unraisablehook
     sys.unraisablehook = lambda *a: None
     try:
-        run_paired(ctx, "C23", "Paired_C23_small.cfg" if ctx.quick else "Paired_C23_large.cfg", KINDS, C23_INVS,
-                   replay_plans(ctx.quick), wp.PAIRED_KINDS, KF_SIG, KF_WHAT)
+        wp.run_paired(ctx, "C23", "Paired_C23_small.cfg" if ctx.quick else "Paired_C23_large.cfg", KINDS, C23_INVS,
+                      replay_plans(ctx.quick), wp.PAIRED_KINDS, KF_SIG, KF_WHAT)
     finally:
         sys.unraisablehook = old_hook
     ctx.assumptions += [
@@ -80,151 +62,3 @@ def replay_plans(quick):
                  DevLists="<- Lists4x3"),
             dict(base, Kinds={"lazy_stage"}, MaxOps=5, PMsgs=3, Thrown={"Err", "Abort"}, Forests="<- FBoth",
                  DevLists="<- NoLists")]
-
-
-def run_paired(ctx, prop, exhaustive_cfg, kinds, invs, plans, pool, kf_sig, kf_what):
-    """shared by C23 and C24 (the two properties use the same machine, different wrapper kinds and invariants)"""
-    # ---- 1. the design ------------------------------------------------------------------------------------------
-    res = run_tlc("MCPaired", exhaustive_cfg, spec_dir=SD, tag=prop, timeout=3400)
-    ctx.add_tlc(res, "Paired exhaustive " + exhaustive_cfg)
-    if not res.ok:
-        st = res.trace[-1][1] if res.trace else {}
-        h = [wp.short(e) for e in st.get("hist", ())]
-        ctx.violation(f"spec:{res.violated}", f"Paired.tla {res.kind} {res.violated} violated: cfg={st.get('cfg')} history {h}",
-                      {"hist": h, "cfg": str(st.get("cfg"))})
-        return
-    ctx.cov["exhaustive"] = True
-    ctx.rule = ("case = one maximal behaviour of Paired.tla (wrapper kind and arguments, device forest, response style, driver "
-                "script, reactions of the wrapped plan) replayed through the real wrapper and a literal reference, or one "
-                "interface trace of a wrapper instance in a random chain (scripted driver / real RunEngine); distinct by "
-                "(configuration, full event sequence); non-trivial = contains a throw, a close or a raising plan")
-    # ---- 2. spec -> code ------------------------------------------------------------------------------------------
-    deferred = []
-    kf_seen_model = set()
-    for pk, consts in enumerate(plans):
-        cfgp = write_cfg(ctx.out / f"replay{pk}.cfg", consts, invariants=invs, constraints=["DumpHist"])
-        res = run_tlc("MCPaired", cfgp, spec_dir=SD, tag=prop + "r", workers=1, timeout=6000)
-        ctx.add_tlc(res, f"replay generation kinds={sorted(consts['Kinds'])} MaxOps={consts['MaxOps']} PMsgs={consts['PMsgs']}")
-        if not res.ok:
-            raise MachineryError(f"replay generation config violated {res.violated}")
-        hists = tlc_histories(res)
-        if not hists:
-            raise MachineryError("no histories printed by Paired.tla")
-        for H in hists:
-            cfg, h, kf = H["cfg"], H["h"], H["kf"]
-            if kf:
-                kf_seen_model.add(kf)
-            ctx.case((cfg_key(cfg), tuple(wp.short(e) for e in h)), nontrivial(h))
-            if not kf:
-                got = wp.replay_paired(cfg, h, "literal")
-                if wp.first_diff(h, got):
-                    deferred.append({"cfg": cfg, "h": wp.usable_prefix(got), "ledger": [], "led": False, "src": "literal", "spec_h": h})
-            got = wp.replay_paired(cfg, h, "real")
-            if wp.first_diff(h, got) is None:
-                if kf:
-                    ctx.violation(kf_sig[kf], f"{kf_what[kf]}; replayed TLC behaviour {[wp.short(e) for e in h]}", {"cfg": cfg, "hist": h})
-                elif nontrivial(h):
-                    ctx.sample({"cfg": cfg_key(cfg), "events": [wp.short(e) for e in h]})
-            else:
-                deferred.append({"cfg": cfg, "h": wp.usable_prefix(got), "ledger": [], "led": False, "src": "real", "spec_h": h})
-    for k in kf_sig:
-        if k not in kf_seen_model:
-            raise MachineryError(f"the as-coded alternative of open finding {k} was not generated (vacuous exemption)")
-    # executions that left the behaviour they were derived from (unspecified unsubscribe order, as-coded alternatives)
-    # are still genuine executions; they must be behaviours of the specification
-    seen = set()
-    batch = []
-    for t in deferred:
-        key = json.dumps([t["cfg"], t["h"]], sort_keys=True)
-        if key not in seen and t["h"]:
-            seen.add(key)
-            t["src"] = f"replay of a TLC behaviour through the {t['src']} implementation"
-            t["count"] = False
-            batch.append(t)
-
-    # ---- 3. code -> spec ------------------------------------------------------------------------------------------
-    rng = random.Random(ctx.seed)
-    n1, n2 = (150, 120) if ctx.quick else (5000, 2500)
-    for src, traces in (("random chain, scripted driver", wp.random_paired_traces(rng, n1, pool)),
-                        ("random chain, real RunEngine", wp.re_paired_traces(rng, n2, pool))):
-        for t in traces:
-            if t["cfg"]["kind"] in kinds:
-                t["src"] = src
-                t["count"] = True
-                batch.append(t)
-    nled = sum(1 for t in batch if t["led"] and t["ledger"])
-    ctx.note(f"{len(batch)} implementation traces to validate, {nled} of them RunEngine executions with a non-empty device ledger")
-    if nled == 0:
-        raise MachineryError("no device ledger was compared (vacuous ledger check)")
-    validate(ctx, prop, batch, kf_sig, kf_what)
-
-
-def corrupted(part):
-    """binding self-check: corrupted copies of real traces (wrong outcome, dropped message, dropped ledger entry)"""
-    out = []
-    bare = lambda t: copy.deepcopy({k: t[k] for k in ("cfg", "h", "ledger", "led")})   # noqa: E731
-    for t in part:
-        if len(t["h"]) >= 6 and t["h"][-1]["g"] == "out" and t["h"][-1]["r"] in ("return", "raise") and not t["led"]:
-            c1 = bare(t)
-            c1["h"][-1]["r"] = "return" if c1["h"][-1]["r"] != "return" else "raise"
-            c2 = bare(t)
-            del c2["h"][max(j for j, e in enumerate(c2["h"][:-1]) if e["g"] == "out")]
-            out += [c1, c2]
-            break
-    for t in part:
-        if t["led"] and len(t["ledger"]) >= 2:
-            c3 = bare(t)
-            del c3["ledger"][-1]
-            out.append(c3)
-            break
-    return out
-
-
-def validate(ctx, prop, traces, kf_sig, kf_what):
-    chunk = 3000
-    n_corrupt = 0
-    for c0 in range(0, len(traces), chunk):
-        part = traces[c0:c0 + chunk]
-        extra = corrupted(traces) if c0 == 0 else []
-        n_corrupt += len(extra)
-        payload = [{k: t[k] for k in ("cfg", "h", "ledger", "led")} for t in part] + extra
-        v = validate_traces("PairedTrace", "PairedTrace.cfg", payload, SD, ctx.out, tag=f"{prop}t", timeout=3400)
-        ctx.add_tlc(v.res, f"PairedTrace ({len(part)} traces)")
-        for j in range(len(extra)):
-            if not v.invariant and len(part) + j not in v.rejected:
-                raise MachineryError("a corrupted trace / ledger was accepted by PairedTrace (binding broken)")
-        ends = {}
-        for a, b in re.findall(r'<<"END", (\d+), (\d+)>>', v.res.stdout):
-            ends.setdefault(int(a) - 1, set()).add(int(b))
-        if v.invariant:
-            t = part[v.inv_trace_index] if v.inv_trace_index is not None and v.inv_trace_index < len(part) else None
-            ctx.violation(f"trace-invariant:{v.invariant}:{cfg_key(t['cfg']) if t else '?'}",
-                          f"{v.invariant} violated on an implementation trace ({t['src'] if t else ''}): "
-                          f"{[wp.short(e) for e in t['h']] if t else ''}",
-                          {"trace": {k: t[k] for k in ("cfg", "h", "ledger", "led")} if t else None})
-            continue        # TLC stops at the first violated invariant: the rest of the chunk is not judged
-        n_acc = 0
-        for idx, t in enumerate(part):
-            if t.get("count", True):
-                ctx.case((cfg_key(t["cfg"]), tuple(wp.short(e) for e in t["h"])), nontrivial(t["h"]))
-            if idx in v.rejected:
-                upto = v.rejected[idx]
-                evs = [wp.short(e) for e in t["h"]]
-                where = wp.short(t["h"][upto]) if upto < len(t["h"]) else "end"
-                if upto == len(t["h"]) - 1 and t["led"]:
-                    where += "/ledger"
-                ctx.violation(f"trace-rejected:{t['cfg']['kind']}:{where}",
-                              f"execution of the real {t['cfg']['kind']} wrapper ({t['src']}) is not a behaviour of Paired.tla: "
-                              f"event {upto} of {evs}" + (f" ledger {[wp.short_v(x) for x in t['ledger']]}" if t["led"] else "")
-                              + (f"; derived from TLC behaviour {[wp.short(e) for e in t['spec_h']]}" if "spec_h" in t else ""),
-                              {"trace": {k: t[k] for k in ("cfg", "h", "ledger", "led")}, "accepted_prefix": upto})
-                continue
-            n_acc += 1
-            fin = ends.get(idx, {0})
-            if 0 not in fin:          # only explained by the as-coded alternative of an open finding
-                for k in sorted(fin):
-                    ctx.violation(kf_sig[k], f"{kf_what[k]}; {t['src']}: {[wp.short(e) for e in t['h']]}",
-                                  {"trace": {k2: t[k2] for k2 in ("cfg", "h", "ledger", "led")}})
-        ctx.traces(n_acc)
-    if n_corrupt < 3:
-        raise MachineryError("could not build the corrupted traces for the binding self-check")
